@@ -335,6 +335,8 @@ def makeMachine() -> Callable[[_Core], _Client]:
     @pep614(Init.upon(_Client.stop).to(Stopped))
     @pep614(Stopped.upon(_Client.stop).to(Stopped))
     def immediateStop(c: _Client, s: _Core) -> Deferred[None]:
+        # whenConnected() may have been called before the service was started.
+        s.cancelConnectWaiters()
         return succeed(None)
 
     @pep614(Connecting.upon(_Client.stop).to(Disconnecting))
